@@ -59,7 +59,12 @@ def parseEKey : List String → Option EKey
   | ["f12"] => some .redo
   | _ => none
 
-def stepLine (k : KSt) (toks : List String) : KSt × String :=
+def parseVKey : String → Option VKey
+  | "i" => some .i | "a" => some .a | "x" => some .x | "u" => some .u
+  | "escape" => some .escape | "f12" => some .redo
+  | _ => none
+
+def stepLineK (k : KSt) (toks : List String) : KSt × String :=
   match toks with
   | "ekey" :: rest =>
     match parseEKey rest with
@@ -81,4 +86,17 @@ def stepLine (k : KSt) (toks : List String) : KSt × String :=
     | some a => let k' := { k with st := act k.st a }; (k', encK k')
     | none => (k, "bad-op")
 
-def main : IO Unit := runS stepLine (kInit { text := [], cur := 0 })
+/-- driver state: the key-processor state plus the Vi input mode (used by `vinit` / `vkey` only) -/
+def stepLine (v : VSt) (toks : List String) : VSt × String :=
+  match toks with
+  | ["vinit", t, c] =>
+    match decStr t, decNat c with
+    | some t, some c => let v' := vInit { text := t, cur := c }; (v', encK v'.k ++ " I")
+    | _, _ => (v, "bad-op")
+  | ["vkey", name] =>
+    match parseVKey name with
+    | some key => let v' := vkey v key; (v', encK v'.k ++ (if v'.ins then " I" else " N"))
+    | none => (v, "bad-op")
+  | _ => let p := stepLineK v.k toks; ({ k := p.1, ins := v.ins }, p.2)
+
+def main : IO Unit := runS stepLine (vInit { text := [], cur := 0 })
